@@ -14,10 +14,10 @@ def spec(tier, seed, repo):
         rule="one case = one world (encoding, group kind, k players, w type bits) in which cards of the "
              "listed types are created open/private, re-masked by a random chain of players (timing "
              "protection on/off) and opened by every player with all verified shares (and, dlog encoding, "
-             "once with one share missing); evaluations = card openings compared with the creation type; "
+             "once with one share missing, and once with one player's contribution first damaged in transit - refused - and then re-sent intact); evaluations = card openings compared with the creation type; "
              "distinct = (world, type) pairs that reached the oracle",
         assumptions=["reference model is the type passed to TMCG_Create*Card", "512/160-bit groups and "
                      "512..640-bit Rabin keys (one 2048/256 world in the thorough tier)",
                      "negligible-probability clauses are not measured"],
-        floors={"dlog_cards": 200, "qr_cards": 20 if tier == "quick" else 200},
+        floors={"dlog_cards": 200, "dlog_damaged_then_resent": 50, "qr_cards": 20 if tier == "quick" else 200},
     )
